@@ -239,6 +239,61 @@ pub fn run(a: &Args) -> Report {
             rep.sample(json!({"seed": a.seed, "round": round, "proto": proto.name(), "users": n_users, "threads": t, "ops_per_thread": ops, "operations": ["tcp request+response through shared salt cache", "client flow from shared client context", "udp client encode/decode (global cipher cache)", "udp server decode/encode on one shared codec, colliding session ids"]}));
         }
     }
+    // two inbounds of one process that share a KEY but not a cipher (the configuration file is a list; nothing stops an
+    // operator from reusing a key): the process-wide datagram cipher cache sees equal key bytes and - if the sender wants -
+    // equal 8-byte ids from both. Each inbound's result must be what it would be alone.
+    for (ma, mb) in [(ss::Method::B3Aes256Gcm, ss::Method::B3ChaCha20Poly1305), (ss::Method::B3Aes256Gcm, ss::Method::B3ChaCha8Poly1305), (ss::Method::B3ChaCha20Poly1305, ss::Method::B3ChaCha8Poly1305)] {
+        let mut rng = Rng::derive(a.seed, 0xC09D, ma as u64 * 16 + mb as u64);
+        pin_clock(NOW);
+        let cfg_a = Cfg::random(&mut rng, Proto::Ss(ma), 0);
+        let mut cfg_b = cfg_a.clone();
+        cfg_b.proto = Proto::Ss(mb);
+        let (Ok(srv_a), Ok(srv_b)) = (real::ss_udp_server(&cfg_a), real::ss_udp_server(&cfg_b)) else { continue };
+        let (keys_a, keys_b) = (cfg_a.ref_client_keys(), cfg_b.ref_client_keys());
+        let name = format!("{}+{}", ma.name(), mb.name());
+        for k in 0..a.n(60, 600) as u64 {
+            let target = Addr::V4(rng.arr(), 1 + rng.below(60000) as u16);
+            let payload = rng.bytes([1usize, 40, 700][k as usize % 3]);
+            let sid = rng.next_u64();
+            let mk = |m: ss::Method, keys: &ss::Keys, sid: u64, pid: u64, rng: &mut Rng| {
+                let p = ss::S22UdpPacket { session_id: sid, packet_id: pid, type_byte: 0, timestamp: NOW, client_session_id: None, padding: vec![], addr: target.clone(), payload: payload.clone() };
+                ss::s22_udp_client_encode(m, keys, &p, &rng.arr())
+            };
+            // the second inbound's datagram is made first: a sender who wants a collision reads 8 bytes off it
+            let d_b = mk(mb, &keys_b, sid, 1 + k, &mut rng);
+            let mut ids = vec![sid];
+            if d_b.len() >= 32 {
+                ids.push(u64::from_be_bytes(d_b[24..32].try_into().unwrap()));
+                ids.push(u64::from_le_bytes(d_b[24..32].try_into().unwrap()));
+                ids.push(u64::from_be_bytes(d_b[..8].try_into().unwrap()));
+            }
+            let mut seq: Vec<(&str, &Box<dyn real::RealSsUdpServer>, Vec<u8>)> = Vec::new();
+            for id in ids {
+                seq.push(("first-inbound", &srv_a, mk(ma, &keys_a, id, 1 + k, &mut rng)));
+            }
+            seq.push(("second-inbound", &srv_b, d_b));
+            seq.push(("first-inbound", &srv_a, mk(ma, &keys_a, sid, 1000 + k, &mut rng)));
+            if k % 2 == 1 {
+                seq.reverse();
+            }
+            for (who, srv, w) in seq {
+                let mut b = BytesMut::from(&w[..]);
+                rep.evaluations += 1;
+                rep.mon("datagrams_through_two_inbounds_sharing_a_key", 1);
+                match guarded(|| srv.decode(&mut b)) {
+                    Ok(Some(d)) if d.payload == payload && d.addr == target => {
+                        let mut dst = BytesMut::new();
+                        if let Err(f) = guarded(|| srv.encode(&payload, &to_address(&target), d.client_session_id, sid.rotate_left(9), 1 + k, None, &mut dst)) {
+                            rep.violation(format!("C09|two-inbounds-one-key|{}|{}|udp-server-encode:{}", name, who, fail_sig(&f)), format!("two inbounds sharing a key ({name}): the {who} cannot answer: {}", fail_sig(&f)), json!({"seed": a.seed, "k": k}));
+                        }
+                    }
+                    Ok(_) => rep.violation(format!("C09|two-inbounds-one-key|{}|{}|udp-server-decode:result-differs-from-solo-run", name, who), format!("two inbounds sharing a key ({name}): a valid datagram for the {who} is not decoded as it would be alone"), json!({"seed": a.seed, "k": k})),
+                    Err(f) => rep.violation(format!("C09|two-inbounds-one-key|{}|{}|udp-server-decode:{}", name, who, fail_sig(&f)), format!("two inbounds sharing a key ({name}): a valid datagram for the {who}: {}", fail_sig(&f)), json!({"seed": a.seed, "k": k})),
+                }
+            }
+        }
+        rep.distinct.insert(crate::report::hash_of(&("two-inbounds", name)));
+    }
     // the security check that concurrent flows share: copies of one handshake presented at the same instant
     {
         let mut rng = Rng::derive(a.seed, 0xC09C, 0);
